@@ -1632,7 +1632,25 @@ static void do_source_file(const char *filename_in,
 
    if (did_open)
    {
-      fclose(pfout);
+      // a failed write or a failed final flush must not replace the target
+      bool write_failed = (ferror(pfout) != 0);
+
+      if (fclose(pfout) != 0)
+      {
+         write_failed = true;
+      }
+
+      if (write_failed)
+      {
+         LOG_FMT(LERR, "%s: Unable to write %s: %s (%d)\n",
+                 __func__, filename_tmp.c_str(), strerror(errno), errno);
+
+         if (filename_tmp != filename_out)
+         {
+            UNUSED(unlink(filename_tmp.c_str()));
+         }
+         exit(EX_IOERR);
+      }
 
       if (need_backup)
       {
